@@ -202,6 +202,10 @@ class Ctx:
         print(f"VIOLATION property={self.pid} replay={path}{suffix}", flush=True)
         self.log("violation:", what)
 
+    def has_concrete(self):
+        """True when this run already reported a violation with a concrete failing input."""
+        return any(v[2] for v in self.violations)
+
     def tooling_failure(self, step, detail):
         self.violation(f"tooling/{step}", f"check step '{step}' did not complete: {detail[-2000:]}",
                        {"step": step, "detail": detail[-6000:]}, False)
